@@ -336,6 +336,14 @@ retry:
 	}
 
 finished:
+	// The node may have been marked deleted while its upper levels were still
+	// being linked. A level linked after the deleter's unlink pass went by would
+	// leave a node that is about to be reclaimed reachable forever: unlink it
+	// now, while this accessor's token still keeps the node alive.
+	if _, deleted := x.getNext(0); deleted {
+		s.findPath(itm, insCmp, buf, sts)
+	}
+
 	sts.AddInt64(&sts.nodeAllocs, 1)
 	sts.AddInt64(&sts.levelNodesCount[itemLevel], 1)
 	sts.AddInt64(&sts.usedBytes, int64(s.Size(x)))
